@@ -17,7 +17,7 @@ func init() {
 			"Not covered (data-dependent loops over runtime strings): the escaped-quote scan in re, the quote handling of the option splitter used by in/include, beyond which splitter/separator/trim they delegate to.",
 		Assume:  []string{"net.ParseIP, time.Parse, regexp, encoding/json.Valid, os.Stat are the independent recognisers the documentation refers to"},
 		Trusted: []string{"go/types", "go/ssa", "regexp/syntax", "specification formulas in rulespecs.go"},
-		Run:     func(c *Ctx) { runC05(c); runC05Sticky(c); runC05Unique(c) },
+		Run:     func(c *Ctx) { runC05(c); runC05Sticky(c); runC05Unique(c); runToStrCases(c, "C05-TOSTRCASES"); base(c, "DECLARED", "STATE", "ALIAS", "LOOP", "TEXT") },
 	})
 }
 
@@ -111,6 +111,17 @@ func runC05(c *Ctx) {
 			}
 			if sr.Layout != "" && !layouts[sr.Layout] {
 				a.bad = append(a.bad, "time layout "+sr.Layout+" is not one of the documented layouts for "+r.Entry.Name)
+			}
+			if sr.Layout != "" && (r.Entry.Name == "year2month" || r.Entry.Name == "date") {
+				// default separators iff the rule carries no value: `date=''` means "no separator", not "default"
+				isDefault := !strings.Contains(sr.Layout, cusVal)
+				v, has := t.PC[`eq("",`+cusVal+`)`]
+				switch {
+				case isDefault && (!has || v != 1):
+					a.bad = append(a.bad, "the default separators are used on a path where the rule's value was not found empty (a rule written with the empty separator '' must not fall back to the default)")
+				case !isDefault && (!has || v != 0):
+					a.bad = append(a.bad, "custom separators are used on a path where the rule's value was not found non-empty")
+				}
 			}
 			verdicts := nV
 			if sr.StatErr {
